@@ -148,6 +148,12 @@ func (TrafficOrderMonitor) OnTransition(x *Ctx, t *Transition) {
 		if bi != ai || bs != string(rolloutsv1beta1.CanaryStepStateTrafficRouting) || stateOrder[as] <= stateOrder[bs] {
 			continue
 		}
+		// a status write that records a new plan hash is the plan-change handler recomputing the cursor (it may mark
+		// the step Ready so that the next reconcile moves on); it is not a report that the step's traffic was applied
+		if sb, sa := before.Status.GetSubStatus(), after.Status.GetSubStatus(); sb != nil && sa != nil && sb.RolloutHash != sa.RolloutHash {
+			x.Count("C03 cursor recomputations after a plan change (not a routed report)")
+			continue
+		}
 		steps := after.Spec.Strategy.GetSteps()
 		if int(ai) < 1 || int(ai) > len(steps) {
 			continue
